@@ -152,6 +152,7 @@ func TestC07Histories(t *testing.T) {
 			st.Label("session_with_inside_or_racing_close")
 		}
 		st.LabelN("dup_sockets_checked_not_polled_after_close", int64(s.PolledChecks))
+		st.LabelN("handles_poked_after_the_engine_stopped", int64(s.AfterStopPokes))
 		st.LabelN("canaries_placed", int64(len(s.Canaries)))
 		st.LabelN("canaries_on_just_released_number", int64(s.CanaryHits))
 		if dupListener {
